@@ -5,7 +5,7 @@ from contracts import noise
 PROPERTY = "C04"
 LEVEL = "proof"
 ASSUMPTIONS = ["A-CRYPTO: ChaCha20-Poly1305 idealised: decrypt(nonce, c) returns p only if c == enc(key, nonce, p), else raises InvalidTag; real-world forgery resistance is not verified",
-               "A-PY, A-TYPES, A-SPECTERM", "A-LOOP: an exception escaping data_received makes the transport call connection_lost(exc)"]
+               "A-PY, A-TYPES, A-SPECTERM", "component contract (assume/guarantee): the helper sees the connection only through process_packet (records the packet; may call the helper's close(); may raise) and report_fatal_error (records the error; may call close()) - the behaviour proved for APIConnection under C08/C09/C12", "A-LOOP: an exception escaping data_received makes the transport call connection_lost(exc)"]
 
 
 def targets(eng):
